@@ -842,6 +842,43 @@ def r11_6(prog, rep):
                      "update ->%s: after a re-hash the task is looked up at a stale position (cancel is acknowledged, the entry stays in the map)" % (text, fld))
 
 
+def r11_6b(prog, rep, rid="R11.6"):
+    """The re-hash moves every entry to its home slot in the larger table.  It is a copy from the old table into a fresh, zeroed one:
+    done in place (the same storage grown by realloc), an entry that moves leaves a copy of itself behind in its old slot — lookups
+    by UID still find the right one, but every listing, checkpoint and retirement that walks the table meets the task twice, and after
+    a cancel the left-over points at a record the next submitter is given."""
+    pts = prog.fn("put_task_slot", DAEMON)
+    cfg = pts.cfg
+    n = 0
+    for b, i, x, line in cfg.all_elems():
+        for l, kind, nn in writes(x):
+            l_ = strip_casts(l)
+            if not (kind == "assign" and l_.get("k") == "idx" and "tmap_s" in (l_.get("t") or "")):
+                continue
+            r = strip_casts(cfg.resolve(nn["r"]))
+            if r.get("k") != "idx":
+                continue
+            n += 1
+            dst, src = lv(strip_casts(l_["b"])), lv(strip_casts(r["b"]))
+            key = "put_task_slot/re-hash-into-a-fresh-table"
+            defs = []
+            for b2, i2, x2, l2 in cfg.all_elems():
+                for l3, k3, n3 in writes(x2):
+                    if lv(l3) == dst:
+                        rhs = n3.get("init") if k3 == "decl" else (n3.get("r") if n3.get("k") == "bin" and n3["op"] == "=" else None)
+                        defs.append(strip_casts(cfg.resolve(rhs)) if rhs is not None else None)
+            fresh = defs and all(isinstance(d, dict) and d.get("k") == "call" and d.get("fn") == "calloc" for d in defs)
+            if dst != src and fresh:
+                rep.ok(rid, key, pts.loc(nn.get("line", line)), "entries are copied from %s into %s, which comes from calloc()" % (src, dst))
+            else:
+                how = "the same table" if dst == src else "%s, which is %s" % (dst, "; ".join(show(d)[:40] for d in defs if d) or "not a fresh table")
+                rep.fail(rid, key, pts.loc(nn.get("line", line)), "the re-hash copies entries of %s into %s: an entry that moves to a new slot stays in "
+                         "its old one as well, so walks over the table (listing, checkpoint) meet the task twice and a cancelled task's "
+                         "left-over points at a record that is handed to the next submitter" % (src, how))
+    if n < 1:
+        rep.broken_("rule=R11.6 the entry copy of the re-hash in put_task_slot() was not found")
+
+
 def r11_7(prog, rep):
     """The reply names the task the request was about.  cmd_ical_rpl() prints `UID:` from the instruction's oid; for every verb that
     cmd_ical() answers, the reader of the request (echs_evical_pull) must have set that oid on every path that yields the verb.  Both
@@ -980,6 +1017,40 @@ def r11_8(prog, rep, rid="R11.8"):
         rep.ok(rid, key, f.loc(), "%d free-masks: the record handed out is free and exactly its bit is cleared" % len(masks))
 
 
+def r11_9(prog, rep, rid="R11.9"):
+    """The table holds one record per UID hash.  A submission makes a *new* record only when the table has none under that hash; when
+    there is one, it is either the submitter's (replace) or somebody else's (refuse).  The submission path is walked with the lookup
+    fixed to `found`: make_task() — which hands back the existing slot for a hash that is already there — must not be reached, or the
+    record of the other user is overwritten and he loses his task while the intruder is told `success`."""
+    f = prog.fn("_inject_task1", DAEMON)
+    cfg = f.cfg
+    reached = {0: [], 1: []}
+    looked = []
+    for found in (0, 1):
+        def call_eval(c, store, found=found):
+            if c.get("fn") in LOOKUPS:
+                return 777 if found else 0
+            return None
+
+        def effect(b, i, x, store, found=found):
+            if isinstance(x, dict) and x.get("k") == "call":
+                if x.get("fn") in FRESH:
+                    reached[found].append(x.get("line"))
+                if x.get("fn") in LOOKUPS:
+                    looked.append(x.get("line"))
+            return None
+        AbsWalk(f, {l_["n"] for l_ in f.locals}, effect=effect, call_eval=call_eval, max_states=100000).run()
+    if not looked or not reached[0]:
+        raise AnalysisBroken("R11.9: _inject_task1 no longer looks the task up / makes a record when there is none (%s, %s)" % (looked[:1], reached))
+    key = "_inject_task1/new-record-only-when-none"
+    if reached[1]:
+        rep.fail(rid, key, f.loc(reached[1][0]), "make_task() is reached although the table holds a task under this UID: the existing record — "
+                 "another user's, on the path on which the ownership test fails — is overwritten with the submitter's task; its owner can "
+                 "neither list nor cancel it any more and the submitter is told `success`")
+    else:
+        rep.ok(rid, key, f.loc(reached[0][0]), "with a task found under the UID no path reaches make_task()")
+
+
 def _loop_heads(f):
     return set(f.cfg.natural_loops())
 
@@ -1003,10 +1074,13 @@ def run(prog, rep, tier, snap):
     rep.call(r11_5, prog, rep)
     rep.rule("R11.6", "slot indices of the task table are not kept across a re-hash", 1)
     rep.call(r11_6, prog, rep)
+    rep.call(r11_6b, prog, rep)
     rep.rule("R11.7", "the reply names the task of the request: the oid is set for every answered verb", 3)
     rep.call(r11_7, prog, rep)
     rep.rule("R11.8", "the connection allocator hands out a record that is free (value-fixed walk over free-masks)", 1)
     rep.call(r11_8, prog, rep)
+    rep.rule("R11.9", "a submission makes a new record only when the table holds none under that UID", 1)
+    rep.call(r11_9, prog, rep)
 
     from . import c05
     rep.rule("R05.10", "a run-as or owner name inherited from the calendar level is the event's own copy, not freed memory (shared with C05)", 3)
